@@ -44,6 +44,9 @@ DOCS = [
     ("E2", "x y z w a* b* c** d_ e* f** g* h~~ i* j_ k*\n"),
     ("L1", "[aa [bb] cc](u) and [dd *e* ff](v) ![gg [hh](i) jj](k)\n"),
     ("L2", "\\[aa `bb] cc](u) and` [dd <e>* ff](v) ![gg `hh](i)` jj](k)\n"),
+    # constructs indented by four columns: their reading depends on whether the indented-code rule is active
+    ("N", "    # two\n\n    - x\n\n    > q\n\n    ```\n    f\n    ```\n"),
+    ("U", "[new](http://never.seen/before?x=1) ![n](http://fresh.example/p.png) <http://unseen.example/z>\n"),
 ]
 DOC = dict(DOCS)
 SCENARIOS = [
@@ -51,6 +54,9 @@ SCENARIOS = [
     {"name": "fresh-js", "conf": {"preset": "js-default", "options": {"typographer": True}}, "reconf": False},
     {"name": "reconf-cmx", "conf": {"preset": "commonmark"}, "reconf": True},
     {"name": "fresh-zero", "conf": {"preset": "zero"}, "reconf": False},
+    {"name": "fresh-nocode", "conf": {"preset": "commonmark", "disable": ["code"]}, "reconf": False},
+    # a long-lived shared instance that has already processed several hundred documents with distinct links (bounded caches are full)
+    {"name": "used-cm", "conf": {"preset": "commonmark"}, "reconf": False, "used": True},
 ]
 CALLSETS = [
     [("render", "A"), ("render", "B")],
@@ -61,7 +67,21 @@ CALLSETS = [
     [("render", "E1"), ("render", "E2")],
     [("render", "L1"), ("render", "L2")],
     [("render", "L2"), ("render", "L1")],
+    [("render", "A"), ("render", "N")],
+    [("render", "A"), ("render", "U")],
 ]
+
+
+def callsets_for(sc, quick):
+    """which call pairs are swept on which scenario (the two special scenarios get the pairs aimed at them)"""
+    if sc["name"] == "fresh-nocode":
+        return [CALLSETS[8], [("render", "N"), ("render", "A")]]
+    if sc["name"] == "used-cm":
+        return [[("render", "A"), ("render", "FLOOD")], CALLSETS[9], [("render", "L1"), ("render", "FLOOD")], [("render", "U"), ("render", "A")]]
+    base = CALLSETS[:8]
+    if quick and sc["name"] != "fresh-cm":
+        return base[:2] + base[5:7]
+    return base
 
 
 def floors(tier):
@@ -71,7 +91,17 @@ def floors(tier):
             "schedules.double": 100 if q else 5000, "schedules.pingpong": 1000 if q else 50000, "pingpong.a_parked_in_shared_write_code": 300}
 
 
+_used = {}
+
+
 def make_instance(sc):
+    if sc.get("used"):
+        md = _used.get(sc["name"])
+        if md is None:
+            md = _used[sc["name"]] = C.build(sc["conf"])
+            for i in range(300):
+                md.render(f"[l{i}](http://h{i}.example/p{i}?q={i}) ![i{i}](/img/{i}.png) <http://a{i}.example/>\n\n> q{i} `c{i}`\n")
+        return md
     md = C.build(sc["conf"])
     if sc["reconf"]:
         md.enable(["table", "strikethrough"])
@@ -79,16 +109,39 @@ def make_instance(sc):
     return md
 
 
+_flood = [0]
+FLOOD_N = [300]
+
+
+def doc_text(doc):
+    if doc == "FLOOD":
+        # several hundred links never seen before: any bounded per-instance cache overflows while this call runs
+        n = _flood[0]
+        return " ".join(f"[f{n}x{i}](http://flood{n}.example/{i}?q={i})" for i in range(FLOOD_N[0])) + "\n"
+    return DOC[doc]
+
+
 def do_call(md, api, doc):
     env = {}
-    r = getattr(md, api)(DOC[doc], env)
+    r = getattr(md, api)(doc_text(doc), env)
     if not isinstance(r, str):
         r = [t.as_dict() for t in r]
     return (r, {k: v for k, v in env.items()})
 
 
 _libdir = None
-_solo = {}
+
+
+class _Solo(dict):
+    def __missing__(self, key):
+        scn, api, d = key
+        if d == "FLOOD":
+            sc = next(s for s in SCENARIOS if s["name"] == scn)
+            return do_call(C.build(sc["conf"]), api, d)   # not memoised: the text changes with every schedule
+        raise KeyError(key)
+
+
+_solo = _Solo()
 _fine = None
 _events = {}
 
@@ -127,6 +180,18 @@ def setup():
         holder["md"] = make_instance(sc)
         writers |= discover_shared_writers(thunk, [MarkdownIt, Ruler, ParserBlock, ParserInline, ParserCore, RendererHTML, OptionsDict])
     _fine = {c for c in writers if c.co_filename.startswith(_libdir)}
+    import types
+    import markdown_it.main as _m
+    import markdown_it.ruler as _r
+    for modl in (_m, _r):
+        for obj in vars(modl).values():
+            if isinstance(obj, type) and obj.__module__ == modl.__name__ and obj.__name__ != "StateBase":   # parse states are per-call
+                for f in vars(obj).values():
+                    f = getattr(f, "__func__", f)
+                    if isinstance(f, types.FunctionType):
+                        _fine.add(f.__code__)
+                    elif isinstance(f, property) and f.fget:
+                        _fine.add(f.fget.__code__)
 
 
 def total_events(sched, sc, call):
@@ -138,10 +203,31 @@ def total_events(sched, sc, call):
     return _events[key]
 
 
+def fine_event_indices(sched, sc, call, only_file=None):
+    """indices (event numbers of role A) of the events of `call` that fall inside shared-state code"""
+    md0 = make_instance(sc)
+    ks = []
+    orig_event = sched._event
+
+    def spy(code, where, fine, _o=orig_event):
+        _o(code, where, fine)
+        if fine and sched.roles.get(threading.get_ident()) == "A" and (only_file is None or code.co_filename.endswith(only_file)):
+            ks.append(sched.counts.get("A", 0))
+    sched._event = spy
+    try:
+        sched.run([("A", lambda: do_call(md0, *call))], {}, {})
+    finally:
+        sched._event = orig_event
+    return ks
+
+
 def run_schedule(ctx, sched, case, record=True):
     sc = next(s for s in SCENARIOS if s["name"] == case["scenario"])
     calls = [tuple(c) for c in case["calls"]]
     md = make_instance(sc)
+    if sc.get("used"):
+        _flood[0] += 1
+        do_call(md, *calls[0])   # pre-touch: whatever call A needs is cached when the schedule starts
     roles = ["A", "B", "C"][:len(calls)]
     thunks = [(r, (lambda c=c: do_call(md, *c))) for r, c in zip(roles, calls)]
     plan = {"A": case["k1"]}
@@ -190,6 +276,9 @@ def run_pingpong(ctx, sched, case, record=True):
     sc = next(s for s in SCENARIOS if s["name"] == case["scenario"])
     ca, cb = tuple(case["calls"][0]), tuple(case["calls"][1])
     md = make_instance(sc)
+    if sc.get("used"):
+        _flood[0] += 1
+        do_call(md, *ca)
     budgets = {"A": 40 * max(200, total_events(sched, sc, ca)[0]) + 2000, "B": 40 * max(200, total_events(sched, sc, cb)[0]) + 2000}
     res = sched.run_pp(lambda: do_call(md, *ca), lambda: do_call(md, *cb), case["k1"], case["k2"], budgets)
     errs = []
@@ -335,7 +424,7 @@ def stress(ctx, runs, nthreads):
         for run in range(runs):
             sc = SCENARIOS[run % len(SCENARIOS)]
             md = make_instance(sc)
-            calls = [(("render", "parse", "parseInline")[i % 3], list(DOC)[i % len(DOC)]) for i in range(nthreads)]
+            calls = [(("render", "parse", "parseInline")[i % 3], list(DOC)[(i + run) % len(DOC)]) for i in range(nthreads)]
             res = [None] * nthreads
             bar = threading.Barrier(nthreads)
             del log[:]
@@ -407,7 +496,16 @@ def replay(ctx, case):
 
 
 def run(ctx):
+    import time as _t
+    t0 = _t.monotonic()
+
+    def mark(name):
+        nonlocal t0
+        ctx.cmax("phase_seconds." + name, int(_t.monotonic() - t0))
+        t0 = _t.monotonic()
     setup()
+    FLOOD_N[0] = 300 if ctx.quick else 1100
+    mark("setup")
     rng = ctx.rng
     ctx.count("shared_writers_discovered", len(_fine))
     ctx.info["shared_writers"] = sorted(f"{os.path.basename(c.co_filename)}:{c.co_name}" for c in _fine)
@@ -416,8 +514,10 @@ def run(ctx):
     try:
         idx = 0
         # ping-pong schedules (A1 B1 A2 B2): every event of A inside shared-write code x a spread of points of B, plus random pairs
-        for sc in (SCENARIOS[:2] if ctx.quick else SCENARIOS):
-            for calls in (CALLSETS[:1] + CALLSETS[2:4] + CALLSETS[6:7] if ctx.quick else CALLSETS):
+        for sc in (SCENARIOS[:2] + SCENARIOS[4:5] if ctx.quick else SCENARIOS):
+            for calls in (callsets_for(sc, ctx.quick)[:3] if ctx.quick else callsets_for(sc, False)):
+                if calls[1][1] == "FLOOD":
+                    continue
                 ta, _fa = total_events(sched, sc, calls[0])
                 tb2, _fb = total_events(sched, sc, calls[1])
                 # locate A's events that fall inside shared-write code
@@ -436,8 +536,8 @@ def run(ctx):
                     sched._event = orig_event
                 spread = [max(1, int(tb2 * f)) for f in ((0.15, 0.6) if ctx.quick else (0.03, 0.1, 0.25, 0.5, 0.75, 0.9, 0.98))]
                 if ctx.quick and len(fine_ks) > 150:
-                    # long shared-write stretches (first-use compile): every 4th bytecode; short ones (a test-and-set window) completely
-                    fine_ks = fine_ks[(ctx.seed % 4)::4]
+                    # long shared-write stretches (first-use compile): every 8th bytecode; short ones (a test-and-set window) completely
+                    fine_ks = fine_ks[(ctx.seed % 8)::8]
                 ks = [(k1, k2) for k1 in fine_ks for k2 in spread]
                 for _ in range(60 if ctx.quick else 1500):
                     ks.append((rng.randint(1, ta), rng.randint(1, tb2)))
@@ -446,16 +546,21 @@ def run(ctx):
                     if not ctx.mine(idx):
                         continue
                     check_case(ctx, sched, {"mode": "pingpong", "scenario": sc["name"], "calls": [list(calls[0]), list(calls[1])], "k1": k1, "k2": k2})
+        mark("pingpong")
         for sc in SCENARIOS:
-            for calls in CALLSETS:
+            for calls in callsets_for(sc, ctx.quick):
                 total, fine = total_events(sched, sc, calls[0])
                 ctx.cmax("max_events_in_call_A", total)
                 # first-use prefix: everything up to and a little beyond the last event inside shared-write code
                 md = make_instance(sc)
                 sched.run([("A", lambda: do_call(md, *calls[0]))], {}, {})
-                prefix = min(total, 600 if ctx.quick else total)
-                stride = 11 if ctx.quick else 1
+                prefix = min(total, 350 if ctx.quick else total)
+                stride = 17 if ctx.quick else 1
                 ks = list(range(1, prefix + 1)) + list(range(prefix + 1 + (ctx.seed % stride), total + 1, stride))
+                if calls[1][1] == "FLOOD":
+                    # the flooding second call is expensive: pre-empt A only inside shared-state code (facade, rule manager)
+                    # (quick: only the facade's own methods, thorough: the rule managers' too)
+                    ks = fine_event_indices(sched, sc, calls[0], os.sep + "main.py" if ctx.quick else None)
                 for k in ks:
                     idx += 1
                     if not ctx.mine(idx):
@@ -464,11 +569,12 @@ def run(ctx):
                     check_case(ctx, sched, case)
                     if idx % 4001 == 0:
                         ctx.sample(dict(case, parked_at=sched.park_at.get("A")))
+        mark("single")
         # two pre-emptions, concentrated on the first-use windows
-        n2 = ctx.scale(4000, 200000)
+        n2 = ctx.scale(2500, 200000)
         for _ in range(n2):
-            sc = rng.choice(SCENARIOS)
-            calls = rng.choice(CALLSETS)
+            sc = rng.choice(SCENARIOS[:5])
+            calls = rng.choice(callsets_for(sc, ctx.quick))
             third = rng.choice([("render", "C"), ("parse", "A"), ("parseInline", "I"), ("render", "T")])
             ta, _f = total_events(sched, sc, calls[0])
             tb, _f = total_events(sched, sc, calls[1])
@@ -478,9 +584,12 @@ def run(ctx):
             check_case(ctx, sched, case)
     finally:
         sched.uninstall()
+    mark("double")
     # nested starts
     k = 0
     for sc in SCENARIOS:
+        if sc.get("used"):
+            continue   # plug-ins would accumulate on the long-lived instance
         for kind, extra in (("core", {"after": "block"}), ("core", {"after": "normalize"}), ("core", {"after": "inline"}), ("render_rule", {"token": "paragraph_open"}),
                             ("render_rule", {"token": "text"}), ("highlight", {}), ("inline_rule", {})):
             for outer in ("A", "B", "C", "T"):
@@ -489,7 +598,9 @@ def run(ctx):
                         k += 1
                         if ctx.mine(k):
                             nested_case(ctx, dict({"kind": kind, "scenario": sc["name"], "outer": outer, "inner": inner, "inner_api": inner_api}, **extra))
-    stress(ctx, ctx.scale(1600, 40000), 8 if ctx.shard % 2 else 16)
+    mark("nested")
+    stress(ctx, ctx.scale(800, 40000), 8 if ctx.shard % 2 else 16)
+    mark("stress")
 
 
 @selftest
